@@ -112,7 +112,31 @@ P2PK_ASSUME = COMMON_ASSUME + [
     'clock: the locktime is at least 10 s away from now, a harness run takes < 5 s',
     'nut10 (de)serialisation summarised as an injective constructor (DESIGN.md 4.6)']
 
+def c10(tier):
+    kw = dict(models=('std', 'crypto', 'json'), crypto_mode='alg')
+    return [Harness('VHarnessBDHKE', 'crypto', ['crypto/zz_verif_bdhke.go'], summaries=('h2c',), bounds='every secret (string of any length), every blinding factor, every key: all symbolic', must_reach=('done',), **kw),
+            Harness('VHarnessDLEQ', 'crypto', ['crypto/zz_verif_bdhke.go'], summaries=('h2c',), bounds='every key, blinded message, nonce; arbitrary (e, s, A, B\', C\') for the specification equivalence', must_reach=('complete', 'spec'), **kw),
+            Harness('VHarnessDLEQWallet', 'cashu/nuts/nut12', ['cashu/nuts/nut12/zz_verif_dleq.go', 'crypto/zz_verif_bdhke.go'], summaries=('h2c',), bounds='every secret, key, blinding factor, nonce', must_reach=('done',), **kw)]
+def c11(tier):
+    kw = dict(models=('std', 'crypto', 'json'), crypto_mode='euf')
+    F = ['crypto/zz_verif_bdhke.go', 'crypto/zz_verif_derive.go']
+    return [Harness('VHarnessHashToCurve', 'crypto', F, bounds='every message (string of any length); counter loop unwound 4 times (messages needing more iterations: outside, probability 2^-4)', must_reach=('done',), unwind=6, salt_retries=True, **kw),
+            Harness('VHarnessKeysetId', 'crypto', F, bounds='every set of 1..3 keys with arbitrary distinct 64-bit amounts', must_reach=('done',), **kw),
+            Harness('VHarnessGenerateKeyset', 'crypto', F, bounds='every 32-byte seed, every derivation index < 2^31; all 60 keys', must_reach=('done',), **kw),
+            Harness('VHarnessNut13', 'cashu/nuts/nut13', F + ['cashu/nuts/nut13/zz_verif_nut13.go'], bounds='every 32-byte seed, every 8-byte keyset id (incl. high bits set), every counter < 2^31', must_reach=('done',), **kw),
+            Harness('VHarnessDeriveP2PK', 'wallet', F + ['wallet/zz_verif_p2pkkey.go'], bounds='every 32-byte seed', must_reach=('done',), **kw)]
+C11_ASSUME = COMMON_ASSUME + ['the primitives themselves (sha256, secp256k1 point parsing, BIP-32 child derivation) are uninterpreted functions shared by implementation and reference: what is decided is the composition, bit for bit',
+    'BIP-32 derivation never fails (probability 2^-127 per step) and has no collisions']
+C10_ASSUME = COMMON_ASSUME + [
+    'secp256k1 modelled algebraically: points by their discrete logarithm, scalars and points as integers; ring identities over Z hold modulo the group order (facts that hold only modulo n are outside)',
+    'sha256, point serialisation, hash_to_curve are collision free (injectivity instances); hash_to_curve never returns the identity',
+    'PrivKeyFromBytes of a 32-byte hash is below the group order (fails with probability ~2^-128)',
+]
+
 PROPS = {
+    'C11': dict(harnesses=c11, level='bounded symbolic verification: equality with reference terms written from NUT-00/02/13 over the same uninterpreted primitives', assumptions=C11_ASSUME, outside=['the primitives themselves (library code)', 'keyset ids shorter than 8 bytes (DeriveKeysetPath indexes 8 bytes)']),
+    'C10': dict(harnesses=c10, level='bounded symbolic verification over an algebraic group model: completeness identities and equivalence of the accept condition with the NUT-12 equation', assumptions=C10_ASSUME,
+                outside=['random-oracle soundness of the Chaum-Pedersen proof (that no other (e,s) satisfies the equation): cryptographic, not claimed', 'edge scalars 0 and >= n beyond reduction mod n']),
     'C13': dict(harnesses=c13, level='bounded symbolic verification against a reference predicate written from NUT-14', assumptions=P2PK_ASSUME, outside=['BIP-340 security', 'sha256 collisions (injectivity assumed)']),
     'C12': dict(harnesses=c12, level='bounded symbolic verification against a reference predicate written from NUT-11 (two implications: accepted => REQ, canonical witness => accepted)', assumptions=P2PK_ASSUME, outside=['BIP-340 security', 'nut10 JSON text format']),
     'C05': dict(harnesses=c05, level='bounded symbolic verification over scripted Lightning answers', assumptions=MINT_ASSUME, outside=['the real LND/CLN adapters (network code); the property is stated at the lightning.Client interface']),
